@@ -54,7 +54,7 @@ Definition result_eqb (veq : vals -> vals -> bool) (a b : result ava) : bool :=
   end.
 
 Definition veq_of (x : input) : vals -> vals -> bool :=
-  match i_entry x with EServer => vals_eqb_held | _ => vals_eqb end.
+  match i_entry x with EServer _ => vals_eqb_held | _ => vals_eqb end.
 
 Definition model (c : case) : output := run (rm (c_mt c)) ectab (c_in c).
 
@@ -72,10 +72,14 @@ Definition agrees (c : case) : bool :=
 (* the property, evaluated on what the implementation did *)
 Definition holds (c : case) : bool := spec_b (rm (c_mt c)) ectab (c_in c) (c_obs c).
 
-(* known-finding classes (consulted only when holds is false):
-   1 = Server._authn_response passes best_effort=True: Policy.restrict raised MissingValue and the
-       unfiltered identity was put into the assertion
-   2 = entity categories configured but the Policy has no metadata store: the filter is skipped *)
+(* finding classes (consulted only when holds is false).  Both findings are FIXED in /repo
+   (findings/C10.json), so the driver reports a case of either class as a VIOLATION again; the
+   class only names the regression:
+   1 = C10-F1 (a4e3dbdd): through Server._authn_response Policy.restrict raised MissingValue and
+       the outcome breaks the property (before the repair: the unfiltered identity was put into
+       the assertion, best_effort=False ignored)
+   2 = C10-F2 (47cc754e): entity categories configured but the Policy has no metadata store
+       (before the repair: the filter was skipped) *)
 Definition cls (c : case) : nat :=
   let x := c_in c in
   if class1 (rm (c_mt c)) ectab x then 1
@@ -83,5 +87,6 @@ Definition cls (c : case) : nat :=
   else 0.
 
 Definition run := run_cases agrees holds cls.
+Definition model_v0 (c : case) : output := run_v0 (rm (c_mt c)) ectab (c_in c).
 Definition explain (c : case) :=
-  (model c, agrees c, holds c, cls c, flat (c_in c)).
+  (model c, agrees c, holds c, cls c, flat (c_in c), ("v0", model_v0 c)).
